@@ -235,7 +235,7 @@ class Formatter(ABC):
             )
 
         _fmt = cls.gen_format(_fmt)
-        if _search := re.search(rf"^{_fmt}$", _value):
+        if _search := re.search(rf"^{_fmt}\Z", _value):
             return cls(
                 **cls.__init_parsing__(
                     cls.__validate_format(_search.groupdict()),
